@@ -97,11 +97,6 @@ def run_check(prop, rules, tier, model, repo, explanation, assumptions, seed=0, 
             except AnalysisError as e:
                 # the other rules still run: when they report violations those are the informative result
                 deferred.append(e)
-        if deferred and not any(not o.ok for o in chk.obligations):
-            raise deferred[0]
-        for e in deferred:
-            chk.note('ANALYSIS-ERROR in one rule (other rules report violations): %s' % e)
-            print('NOTE (one rule could not analyse this tree: %s)' % e)
         counts = {}
         for o in chk.obligations:
             counts[o.rule] = counts.get(o.rule, 0) + 1
@@ -119,6 +114,7 @@ def run_check(prop, rules, tier, model, repo, explanation, assumptions, seed=0, 
         status = 2
 
     known = [k for k in load_known() if k.get('property') == prop]
+    deferred = locals().get('deferred') or []
     open_keys = dict(((k['rule'], k['key']), k) for k in known if k.get('status') == 'open')
     failed = [o for o in chk.obligations if not o.ok]
     violations, knowns = [], []
@@ -140,6 +136,14 @@ def run_check(prop, rules, tier, model, repo, explanation, assumptions, seed=0, 
         chk.note('known finding not reproduced on this tree (no longer fails or construct gone): %s %s' % (
             k['rule'], k['key']))
 
+    if deferred and status != 2:
+        if violations:
+            for e in deferred:
+                chk.note('ANALYSIS-ERROR in one rule (other rules report violations): %s' % e)
+                print('NOTE (one rule could not analyse this tree: %s)' % e)
+        else:
+            err = 'ANALYSIS-ERROR property=%s %s' % (prop, deferred[0])
+            status = 2
     if err and status == 2 and violations and 'floor is' in err:
         # a rule found fewer instances than confirmed by hand *and* other instances fail: the failing constructs are
         # the informative report (the missing instances are usually a consequence of the same change)
